@@ -2,6 +2,7 @@ CONSTANTS
   MaxTasks = 5
   MaxSend = 2
   WithOnConnect = TRUE
+  WithOnDisconnect = TRUE
   HandlerCloses = FALSE
   WithCloser = FALSE
   Dev_NoConnRecheck = FALSE
